@@ -23,7 +23,7 @@ M_NTOK, M_NTEXT, M_NMAP, M_LTOK, M_LTEXT, M_LMAP, M_WARN, M_FUEL, M_WF, M_KNOWN,
     M_EWARN, M_PATHS, M_EXPN, M_EXPL, M_NUMS = range(19)
 
 # D13 D14 D17 D22 D23 D25 D26 were repaired in /repo (fix: commits): they are no classes any more
-KNOWN_IDS = {15: "D15", 24: "D24", 27: "D27", 28: "D28"}
+KNOWN_IDS = {15: "D15", 24: "D24", 27: "D27", 28: "D28", 29: "D29"}
 
 RUNS = os.path.join(CACHE, "css_runs")
 
@@ -345,7 +345,7 @@ def c10_case(c, agg):
 
 
 _POS_RE = re.compile(r'\((?:i|at|h|idh|s|u|d|n|pc|dim|w|c|col|semi|com|inc|dash|pre|suf|sub|cdo|cdc|bu|bs|cp|cs|cc|F|P|S|C) (\d+) (\d+)[ )]')
-_IMPORT_NEXT_RE = re.compile(r'\(at \d+ \d+ "import"\)(?: \((\w+) (\d+) (\d+))?')
+_IMPORT_NEXT_RE = re.compile(r'\(at \d+ \d+ "(?i:import)"\)(?: \((\w+) (\d+) (\d+))?')
 CLOSER_OF = {"P": "cp", "S": "cs", "C": "cc"}
 
 
@@ -420,6 +420,9 @@ def c19_case(c, agg):
                     ok = o["class_prefix"] is not None and tok_strings(D)[0] == o["class_prefix"] + "--" + tok_strings(S)[0]
                 elif sk == "F" and dk == "at":
                     ok = tok_strings(S)[0] == tok_strings(D)[0]
+                elif sk == "i" and dk == "at":
+                    # the bare `layer` keyword of an import, written as `@layer`
+                    ok = tok_strings(S)[0] == tok_strings(D)[0] and tok_strings(S)[0].lower() == "layer"
             else:
                 if shape(S) == shape(D):
                     ok = True
@@ -429,8 +432,10 @@ def c19_case(c, agg):
                     ok = True   # sign comment points at the class name that triggered it
                 elif S == "C" and o["convert_host"] and (D in ("S", "cs", "com", "(d 61)") or dk in ("i", "s")):
                     ok = True   # synthesised host selector points at the rule's block
-                elif sk == "F" and tok_strings(S)[0] in ("layer", "supports") and D in ("P", "C", "cp", "cc"):
+                elif sk == "F" and tok_strings(S)[0].lower() in ("layer", "supports") and D in ("P", "C", "cp", "cc"):
                     ok = True   # wrappers synthesised from an @import condition
+                elif sk == "i" and tok_strings(S)[0].lower() == "layer" and D in ("C", "cc") and o["import_sign"] is not None:
+                    ok = True   # block of the anonymous layer of an import
                 elif (sl, sc) in import_starts and (D in ("C", "cc") or dk in ("at", "c")):
                     ok = True   # @media wrapper / placeholder point at the start of the import
             if ok:
@@ -559,13 +564,16 @@ def analyse_all(cases, stats):
         # numeric tokens are paired by order, which is sound only when the token streams conform
         # (a well-formed sheet outside every known class whose output does not conform is a C08 violation already; its
         # numeric tokens are still paired when their kinds line up, so that an unconverted rpx is reported under C10 too)
-        c10_on = wf and (conf_impl or not known)
+        # (class 29 leaves an rpx dimension unconverted: the token streams still line up)
+        c10_on = wf and (conf_impl or not [k for k in known if k != 29])
         if not c10_on:
             agg["c10_cases_skipped_nonconforming"] += 1
         for b in (c10_case(c, agg) if c10_on else []):
             what, src, want, got, in_known = b
             if in_known:
                 known_hits["C10"]["D16"] += 1
+            elif 29 in known and what == "rpx not converted to vw":
+                known_hits["C10"]["D29"] += 1
             elif wf and any(k in known for k in (15, 24, 28)):
                 known_hits["C10"]["D15/D24 (token re-lexed)"] += 1
             else:
